@@ -40,6 +40,12 @@ TowerHeights == {8, 60, 64, 65, 150, 200, 1000, 10000, 100000, 1000000}
 \* length today, so the heights stop at 10^5 to stay clear of the time budget)
 ChainOpeners == {"a.", "1 +", "a(1)", "x |>", "a.0", "1 <>", "a ||"}
 ChainHeights == {8, 150, 1000, 10000, 100000}
+\* flat runs: a long stretch of tokens without any nesting and without a token that starts a statement or a definition,
+\* behind an unfinished construct (whatever look-ahead or recovery scan the construct does has nothing to stop at)
+RunLeads   == {"fn a() { use a", "fn a() { use", "fn a() { let x =", "fn a() { case x { a ->", "const c =", "fn a() { x(",
+               "fn a() { [", "type T { A(", "import a.{", "fn a(", "fn a() { x |>", "fn a() { #("}
+RunUnits   == {"1 ,", "b |>", "+ 1", ", c", "a", "b . c", "1"}
+RunLengths == {40, 600, 1100, 3000}
 
 VARIABLES seq,                \* enumerator
           depth, top, fuel, pc   \* progress model (top = nesting depth when end of input was hit)
@@ -54,6 +60,7 @@ Extend == /\ Mode \in {"tok", "chr"} /\ Len(seq) < MaxLen
 Tower == /\ Mode = "tower" /\ seq = <<>>
          /\ \/ \E o \in TowerOpeners, h \in TowerHeights : seq' = <<o, h>>
             \/ \E o \in ChainOpeners, h \in ChainHeights : seq' = <<o, h>>
+            \/ \E l \in RunLeads, u \in RunUnits, h \in RunLengths : seq' = <<"run|" \o l \o "|" \o u, h>>
          /\ UNCHANGED <<depth, top, fuel, pc>>
 
 \* progress model: descend consumes the opener (refill), at end of input every level unwinds with U look-aheads
